@@ -124,6 +124,13 @@ func ApplyForURL(url string, timeout time.Duration, opts *Options) (*Result, err
 	}
 	defer resp.Body.Close()
 
+	// After redirects the document comes from another address than the
+	// requested one, and that address is the one its relative URLs refer to.
+	if resp.Request != nil && resp.Request.URL != nil {
+		finalURL := *resp.Request.URL
+		parsedURL = &finalURL
+	}
+
 	// Make sure content type is HTML
 	cp := resp.Header.Get("Content-Type")
 	if !strings.Contains(cp, "text/html") {
